@@ -76,7 +76,9 @@ def accept (s : FSt) : List (Option FEv × String) → Nat → Except (Nat × St
     | some s' => accept s' rest (i + 1)
     | none => .error (i, raw)
 
-/-- Monitors for the parts added by the follow-up (observables only). -/
+/-- Monitors for the parts added by the follow-up (observables only; property failures only —
+    deviations of the step structure, e.g. an untimed wait that polls before `bar.block`, are left
+    to the acceptor). -/
 structure MonT where
   expected : Int
   drops : Int := 0
@@ -109,19 +111,11 @@ def monTStep (m : MonT) (l : Line) : MonT :=
     let m := if l.b != m.expected - m.drops then
       m.v s!"thread {t}: expected after the adjustment is {l.b}, should be {m.expected - m.drops}" else m
     { m with loaded := true }
+  | "bar.adjst" => { m with loaded := false }    -- logged right before the store in the same atomic block
   | "bar.phase" => { m with expected := l.b, drops := 0, loaded := false }
-  | "bar.block" =>
-    let m := if (l.b != 0) != m.timedOp t then
-      m.v s!"thread {t}: do_busy_wait is {l.b} but the operation was invoked with timed={m.timedOp t}" else m
-    let m := if m.blocked t then m.v s!"thread {t}: entered yield_while twice in one wait" else m
-    { m with blocked := upd m.blocked t true }
-  | "bar.polled" =>
-    let m := if !(m.blocked t) && !(m.timedOp t) then
-      m.v s!"thread {t}: wait without busy_wait_timeout polled before entering yield_while" else m
-    { m with sawFlip := upd m.sawFlip t (l.a != l.b) }
+  | "bar.block" => { m with blocked := upd m.blocked t true }
+  | "bar.polled" => { m with sawFlip := upd m.sawFlip t (l.a != l.b) }
   | "bar.spinok" =>
-    let m := if !(m.timedOp t) || m.blocked t then
-      m.v s!"thread {t}: busy-wait phase reported success outside a busy-wait phase" else m
     if !(m.sawFlip t) then m.v s!"thread {t}: busy-wait phase ended although its last poll saw the phase unchanged" else m
   | "ret" =>
     if m.waiting t && !(m.sawFlip t) then
